@@ -995,7 +995,7 @@ func (s *BaseNodeService) processMessage(message storage.Message) (*types.Operat
 // maxBroadcastSize bounds the payloads and signatures put into one signature_reconstructed message:
 // the message repeats every payload of the batch, and a board line is finite (1 MiB on the file
 // board, base64 included), while the proposal and the answers of the same batch do fit.
-const maxBroadcastSize = 256 * 1024
+const maxBroadcastSize = 768 * 1024
 
 func (s *BaseNodeService) broadcastReconstructedSignatures(message storage.Message, sigs []fsmtypes.ReconstructedSignature) error {
 	var (
@@ -1003,7 +1003,12 @@ func (s *BaseNodeService) broadcastReconstructedSignatures(message storage.Messa
 		size  int
 	)
 	for _, sig := range sigs {
+		// (the size it has on the board: JSON-escaped, the byte fields in base64, and once more in
+		// base64 as the data of the board message)
 		sigSize := len(sig.SrcPayload) + len(sig.Signature) + len(sig.File) + len(sig.MessageID) + len(sig.BatchID) + 256
+		if encoded, err := json.Marshal(sig); err == nil {
+			sigSize = len(encoded) * 4 / 3
+		}
 		if len(chunk) > 0 && size+sigSize > maxBroadcastSize {
 			if err := s.broadcastReconstructedSignaturesChunk(message, chunk); err != nil {
 				return err
